@@ -186,6 +186,39 @@ fn random_arc(ctx: &mut Ctx, index: u64, r: &mut Rng, bufs: &mut CurveBuffers) {
                 c = (a.0 + j * d.0, a.1 + j * d.1);
             }
         }
+        4 => {
+            if r.chance(1, 2) {
+                // almost collinear triple far from the origin: the determinant of the differences is a small
+                // integer, the circumcircle terms built from the absolute coordinates cancel in single precision
+                fn egcd(a: i64, b: i64) -> (i64, i64, i64) {
+                    if b == 0 {
+                        (a, 1, 0)
+                    } else {
+                        let (g, s, t) = egcd(b, a % b);
+                        (g, t, s - (a / b) * t)
+                    }
+                }
+                let far = |r: &mut Rng| {
+                    let sign = if r.chance(1, 2) { 1.0 } else { -1.0 };
+                    sign * r.range(50_000, 250_000) as f64
+                };
+                a = (far(r), far(r));
+                let (p, q) = (r.range(500, 1500), r.range(50, 300));
+                let (_, s, t) = egcd(p, q);
+                let m = 2 + r.below(2) as i64;
+                let k = [-3i64, -2, -1, 1, 2, 3][r.below(6)];
+                b = (a.0 + p as f64, a.1 + q as f64);
+                c = (a.0 + (m * p - k * t) as f64, a.1 + (m * q + k * s) as f64);
+            } else {
+                // very flat small arc: sagitta far below the flattening tolerance
+                let chord = 1.0 + r.f() * 60.0;
+                let sag = [0.001, 0.01, 0.05, 0.09][r.below(4)] * (0.5 + r.f());
+                let th = r.f() * 2.0 * PI;
+                let rot = |x: f64, y: f64| (f32r(x * th.cos() - y * th.sin()), f32r(x * th.sin() + y * th.cos()));
+                b = rot(chord / 2.0, sag);
+                c = rot(chord, 0.0);
+            }
+        }
         0 => {
             // near-collinear
             let t = r.f() * 1.5 - 0.25;
@@ -444,10 +477,17 @@ fn catmull_case(ctx: &mut Ctx, index: u64, r: &mut Rng, bufs: &mut CurveBuffers)
 fn linear_case(ctx: &mut Ctx, index: u64, r: &mut Rng, bufs: &mut CurveBuffers) {
     let n = 2 + r.below(8);
     let cps: Vec<P> = (0..n).map(|i| if i == 0 { (0.0, 0.0) } else { (f32r((r.f() * 2.0 - 1.0) * 4096.0), f32r((r.f() * 2.0 - 1.0) * 4096.0)) }).collect();
-    let w = format!("linear {cps:?}");
+    let untyped = r.chance(1, 3);
+    let w = format!("linear{} {cps:?}", if untyped { " (untyped first point)" } else { "" });
     ctx.case(index, w.as_bytes(), |ctx| {
         for mode in [GameMode::Osu, GameMode::Mania] {
-            let curve = Curve::new(mode, &mk(&cps, PathType::LINEAR), None, bufs);
+            let mut pts = mk(&cps, PathType::LINEAR);
+            if untyped {
+                // a path whose first control point carries no type is a straight polyline by convention
+                pts[0].path_type = None;
+                ctx.count("linear_untyped_start");
+            }
+            let curve = Curve::new(mode, &pts, None, bufs);
             ctx.count("linear_judged");
             if as_path(&curve) != cps {
                 ctx.violation("linear_not_polyline", format!("linear path {:?} is not the control polygon", curve.path()), index, w.as_bytes());
